@@ -280,7 +280,7 @@ theorem no_dangling (P : Prog) (ne nl fuel : Nat) (ops : List Action) :
     `~Listener` walks without following the key), and the innermost activation of each of its signals is invalidated (an
     invalidated activation reads neither its emitter nor its data).  So a new object that gets the address of a destroyed
     one finds nothing that is matched against or followed through that address.  (The model itself gives a new object a
-    new id; a model that re-uses ids and its refinement to this one are OPEN, see the end of this file; the real code is
+    new id; the model that re-uses listener ids and its refinement are in PropsReuse.lean, emitter ids are OPEN there; the real code is
     run with exact address reuse by the `reuse` lines of the correspondence run.) -/
 theorem stale_mentions_are_dead_data {m : State} (h : Audit m) :
     (∀ l, m.listeners l = none → ∀ e g d, m.data e g = some d → ∀ x ∈ d.slots,
